@@ -109,8 +109,23 @@ func c13mStrLit(e ast.Expr) (string, bool) {
 	return s, true
 }
 
+// c13mLeanStr renders a printable-ASCII Go string literal as a `List Char` literal.
 func c13mLeanStr(s string) string {
-	return "\"" + strings.NewReplacer("\\", "\\\\", "\"", "\\\"").Replace(s) + "\".toList"
+	if s == "" {
+		return "([] : Str)"
+	}
+	var cs []string
+	for _, r := range s {
+		switch r {
+		case '\'':
+			cs = append(cs, "'\\''")
+		case '\\':
+			cs = append(cs, "'\\\\'")
+		default:
+			cs = append(cs, "'"+string(r)+"'")
+		}
+	}
+	return "([" + strings.Join(cs, ", ") + "] : Str)"
 }
 
 func (t *c13mTr) ex(e ast.Expr) (string, error) {
